@@ -23,6 +23,17 @@
        AxolotlReceivelayer.handleEncMessage (all except-branches), send_retry, reset_retries,
          pendingIncomingMessages / processPendingIncomingMessages -> handle_enc, process_pending
        YowMessagesProtocolLayer + the application on top (acks every message with a delivery receipt)
+       AxolotlControlLayer.onIdentityChangeEncryptNotification    -> INotify: ack, key fetch with a no-op callback
+                                                                     (KNotify): on the answer the bundle is processed -
+                                                                     trust check, session built, identity saved - and
+                                                                     nothing is sent, errors are dropped
+     Durability.  All five sqlite stores share ONE connection.  a_ids/a_sess are the tables as that connection
+     sees them (what the running process works with); a_dids/a_dsess are the COMMITTED tables = what a new
+     process finds.  A store write is made on the connection; `commit` makes everything written so far durable.
+     LiteSessionStore.storeSession and LiteIdentityKeyStore.saveIdentity both end with dbConn.commit()
+     (store_session / store_identity).  Restart = the process ends (the connection is closed, an open
+     transaction is rolled back) and a new one starts: the working tables are re-read from the committed ones.
+     build_session_nocommit is the variant in which saveIdentity has no commit of its own (seeded defect C17-2).
    Numbers (contacts, message ids, identity keys, base keys) are opaque N.  Definitions only. *)
 From YV Require Import Common.Tac.
 Local Open Scope N_scope.
@@ -76,12 +87,14 @@ Fixpoint drop_state (sid : N) (r : list sstate) : list sstate :=
   end.
 
 (* ---------- the account ---------- *)
-Inductive cont := KSend (c m : N) | KRetry (c m t : N) | KIncoming (c : N).
+Inductive cont := KSend (c m : N) | KRetry (c m t : N) | KIncoming (c : N) | KNotify (c : N).
 
 Record acct := mkA {
   a_auto : bool;                          (* PROP_IDENTITY_AUTOTRUST *)
-  a_ids : list (N * N);                   (* durable: identities table, contact -> key *)
-  a_sess : list (N * list sstate);        (* durable: sessions table *)
+  a_ids : list (N * N);                   (* identities table, contact -> key, as the process's connection sees it *)
+  a_sess : list (N * list sstate);        (* sessions table, as the process's connection sees it *)
+  a_dids : list (N * N);                  (* durable: identities table as committed *)
+  a_dsess : list (N * list sstate);       (* durable: sessions table as committed *)
   a_sentq : list (N * N);                 (* volatile: sentQueue (message id, to), oldest first *)
   a_pend : list (N * list (N * enc));     (* volatile: pendingIncomingMessages *)
   a_retries : list (N * N);               (* volatile: _retries *)
@@ -90,22 +103,27 @@ Record acct := mkA {
   a_iqctr : N                             (* ghost: numbering of key requests *)
 }.
 
-Definition init (auto : bool) : acct := mkA auto [] [] [] [] [] [] [] 0.
+Definition init (auto : bool) : acct := mkA auto [] [] [] [] [] [] [] [] [] 0.
 
 Definition set_ids (a : acct) (ids : list (N * N)) : acct :=
-  mkA (a_auto a) ids (a_sess a) (a_sentq a) (a_pend a) (a_retries a) (a_iqs a) (a_skip a) (a_iqctr a).
+  mkA (a_auto a) ids (a_sess a) (a_dids a) (a_dsess a) (a_sentq a) (a_pend a) (a_retries a) (a_iqs a) (a_skip a) (a_iqctr a).
 Definition set_sess (a : acct) (s : list (N * list sstate)) : acct :=
-  mkA (a_auto a) (a_ids a) s (a_sentq a) (a_pend a) (a_retries a) (a_iqs a) (a_skip a) (a_iqctr a).
+  mkA (a_auto a) (a_ids a) s (a_dids a) (a_dsess a) (a_sentq a) (a_pend a) (a_retries a) (a_iqs a) (a_skip a) (a_iqctr a).
 Definition set_sentq (a : acct) (q : list (N * N)) : acct :=
-  mkA (a_auto a) (a_ids a) (a_sess a) q (a_pend a) (a_retries a) (a_iqs a) (a_skip a) (a_iqctr a).
+  mkA (a_auto a) (a_ids a) (a_sess a) (a_dids a) (a_dsess a) q (a_pend a) (a_retries a) (a_iqs a) (a_skip a) (a_iqctr a).
 Definition set_pend (a : acct) (p : list (N * list (N * enc))) : acct :=
-  mkA (a_auto a) (a_ids a) (a_sess a) (a_sentq a) p (a_retries a) (a_iqs a) (a_skip a) (a_iqctr a).
+  mkA (a_auto a) (a_ids a) (a_sess a) (a_dids a) (a_dsess a) (a_sentq a) p (a_retries a) (a_iqs a) (a_skip a) (a_iqctr a).
 Definition set_retries (a : acct) (r : list (N * N)) : acct :=
-  mkA (a_auto a) (a_ids a) (a_sess a) (a_sentq a) (a_pend a) r (a_iqs a) (a_skip a) (a_iqctr a).
+  mkA (a_auto a) (a_ids a) (a_sess a) (a_dids a) (a_dsess a) (a_sentq a) (a_pend a) r (a_iqs a) (a_skip a) (a_iqctr a).
 Definition set_iqs (a : acct) (q : list (N * cont)) (ctr : N) : acct :=
-  mkA (a_auto a) (a_ids a) (a_sess a) (a_sentq a) (a_pend a) (a_retries a) q (a_skip a) ctr.
+  mkA (a_auto a) (a_ids a) (a_sess a) (a_dids a) (a_dsess a) (a_sentq a) (a_pend a) (a_retries a) q (a_skip a) ctr.
 Definition set_skip (a : acct) (s : list N) : acct :=
-  mkA (a_auto a) (a_ids a) (a_sess a) (a_sentq a) (a_pend a) (a_retries a) (a_iqs a) s (a_iqctr a).
+  mkA (a_auto a) (a_ids a) (a_sess a) (a_dids a) (a_dsess a) (a_sentq a) (a_pend a) (a_retries a) (a_iqs a) s (a_iqctr a).
+
+(* dbConn.commit(): everything written on the connection so far becomes durable *)
+Definition commit (a : acct) : acct :=
+  mkA (a_auto a) (a_ids a) (a_sess a) (a_ids a) (a_sess a) (a_sentq a) (a_pend a) (a_retries a) (a_iqs a) (a_skip a)
+      (a_iqctr a).
 
 Definition record_of (a : acct) (c : N) : list sstate :=
   match lookup c (a_sess a) with Some r => r | None => [] end.
@@ -114,8 +132,14 @@ Definition record_of (a : acct) (c : N) : list sstate :=
 Definition trusted (ids : list (N * N)) (c k : N) : bool :=
   match lookup c ids with None => true | Some k' => (k' =? k)%N end.
 
-(* LiteIdentityKeyStore.saveIdentity: delete + insert *)
+(* LiteIdentityKeyStore.saveIdentity: delete + insert ... *)
 Definition save_identity (ids : list (N * N)) (c k : N) : list (N * N) := upd c k ids.
+
+(* ... + dbConn.commit() *)
+Definition store_identity (a : acct) (c k : N) : acct := commit (set_ids a (save_identity (a_ids a) c k)).
+
+(* LiteSessionStore.storeSession: delete + insert + dbConn.commit() *)
+Definition store_session (a : acct) (c : N) (r : list sstate) : acct := commit (set_sess a (upd c r (a_sess a))).
 
 (* ---------- inputs and outputs ---------- *)
 Inductive input :=
@@ -123,8 +147,10 @@ Inductive input :=
 | IKeys (iq : N) (res : list (N * (N * N)))  (* key-directory answer: contact -> (identity, base key our builder draws) *)
 | IMsg (c m : N) (e : enc)                   (* message stanza from c *)
 | IReceipt (c m : N) (retry : bool)          (* receipt stanza from c *)
-| IRestart                                   (* process restart: volatile state gone, store kept *)
-| IWipe.                                     (* this account reinstalls: empty store *)
+| IRestart                                   (* the process ends and a new one starts: volatile state gone, open
+                                                transaction rolled back, the committed store kept *)
+| IWipe                                      (* this account reinstalls: empty store *)
+| INotify (c m : N).                         (* identity-change `encrypt` notification m about contact c *)
 
 Inductive output :=
 | OGetKeys (iq : N) (c : N)
@@ -134,7 +160,8 @@ Inductive output :=
 | ORetry (c m count : N)                              (* retry receipt *)
 | OErr (c : N)                                        (* per-jid error: untrusted identity, message not sent *)
 | ODeliver (c m payload : N)                          (* text entity handed to the application *)
-| OTopReceipt (c m : N) (retry : bool).               (* receipt handed to the application *)
+| OTopReceipt (c m : N) (retry : bool)                (* receipt handed to the application *)
+| ONotifAck (c m : N).                                (* ack of an encrypt notification *)
 
 (* ---------- python-axolotl ---------- *)
 Definition new_state (sid k : N) (alice : bool) : sstate := mkS sid k alice 0 [].
@@ -142,7 +169,13 @@ Definition new_state (sid k : N) (alice : bool) : sstate := mkS sid k alice 0 []
 (* the body of SessionBuilder.processPreKeyBundle after the trust check: new current state, old one archived,
    identity saved *)
 Definition build_session (a : acct) (c k sid : N) : acct :=
-  let a1 := set_sess a (upd c (new_state sid k true :: record_of a c) (a_sess a)) in
+  let a1 := store_session a c (new_state sid k true :: record_of a c) in    (* storeSession FIRST ... *)
+  store_identity a1 c k.                                                    (* ... saveIdentity LAST *)
+
+(* variant, shape of seeded defect C17-2: saveIdentity without a commit of its own ("the session store commits on
+   the same connection") - but here nothing is stored after it *)
+Definition build_session_nocommit (a : acct) (c k sid : N) : acct :=
+  let a1 := store_session a c (new_state sid k true :: record_of a c) in
   set_ids a1 (save_identity (a_ids a1) c k).
 
 (* SessionBuilder.processPreKeyBundle: None = UntrustedIdentityException *)
@@ -172,7 +205,7 @@ Definition decrypt (a : acct) (c : N) (e : enc) : acct * dres :=
     | [] => (a, DNoSession)
     | r =>
       match decrypt_record r (e_sid e) (e_n e) (e_corrupt e) (e_payload e) with
-      | (Some r', res) => (set_sess a (upd c r' (a_sess a)), res)
+      | (Some r', res) => (store_session a c r', res)
       | (None, res) => (a, res)
       end
     end
@@ -183,9 +216,9 @@ Definition decrypt (a : acct) (c : N) (e : enc) : acct * dres :=
       if negb have && negb (e_pkok e) then (a, DInvalidKeyId)
       else
         let r1 := if have then r else new_state (e_sid e) (e_ident e) false :: r in
-        let a1 := set_ids a (save_identity (a_ids a) c (e_ident e)) in
+        let a1 := store_identity a c (e_ident e) in
         match decrypt_record r1 (e_sid e) (e_n e) (e_corrupt e) (e_payload e) with
-        | (Some r', res) => (set_sess a1 (upd c r' (a_sess a1)), res)
+        | (Some r', res) => (store_session a1 c r', res)
         | (None, res) => (a1, res)
         end
     else (a, DUntrusted (e_ident e))
@@ -197,7 +230,7 @@ Definition encrypt (a : acct) (c : N) : option (acct * (ekind * N * N * N)) :=
   | [] => None
   | s :: t =>
     let s' := mkS (s_sid s) (s_ident s) (s_unack s) (s_sent s + 1) (s_seen s) in
-    Some (set_sess a (upd c (s' :: t) (a_sess a)),
+    Some (store_session a c (s' :: t),
           ((if s_unack s then EPk else EMsg), s_sid s, s_sent s, s_ident s))
   end.
 
@@ -209,7 +242,7 @@ Definition create_session (a : acct) (c k sid : N) : acct * bool :=
   match process_bundle a c k sid with
   | Some a' => (a', true)
   | None =>
-    if a_auto a then (build_session (set_ids a (save_identity (a_ids a) c k)) c k sid, true)
+    if a_auto a then (build_session (store_identity a c k) c k sid, true)
     else (a, false)
   end.
 
@@ -218,7 +251,7 @@ Definition create_session_unrepaired (a : acct) (c k sid : N) : acct * bool :=
   match process_bundle a c k sid with
   | Some a' => (a', true)
   | None =>
-    if a_auto a then (set_ids a (save_identity (a_ids a) c k), true)
+    if a_auto a then (store_identity a c k, true)
     else (a, false)
   end.
 
@@ -265,7 +298,7 @@ Definition handle_enc1 (a : acct) (c m : N) (e : enc) : acct * list output :=
 Definition handle_enc (a : acct) (c m : N) (e : enc) : acct * list output :=
   match decrypt a c e with
   | (a1, DUntrusted k) =>
-    if a_auto a then handle_enc1 (set_ids a1 (save_identity (a_ids a1) c k)) c m e
+    if a_auto a then handle_enc1 (store_identity a1 c k) c m e
     else (a1, [])
   | _ => handle_enc1 a c m e
   end.
@@ -278,11 +311,18 @@ Fixpoint process_pending (a : acct) (c : N) (l : list (N * enc)) : acct * list o
     let '(a2, o2) := process_pending a1 c r in (a2, o1 ++ o2)
   end.
 
+Definition cont_contact (k : cont) : N :=
+  match k with KSend c _ | KRetry c _ _ | KIncoming c | KNotify c => c end.
+
 (* getKeysFor.onSuccess for a single requested jid, followed by the caller's callback *)
 Definition keys_result (a : acct) (k : cont) (res : list (N * (N * N))) : acct * list output :=
-  let c := match k with KSend c _ | KRetry c _ _ | KIncoming c => c end in
+  let c := cont_contact k in
   match lookup c res with
-  | None => (set_skip a (a_skip a ++ [c]), [])     (* jid missing from the answer: out of the honest domain *)
+  | None =>                                        (* jid missing from the answer: out of the honest domain *)
+    match k with
+    | KNotify _ => (a, [])                         (* the control layer's own skipEncJids: never consulted *)
+    | _ => (set_skip a (a_skip a ++ [c]), [])
+    end
   | Some (ident, sid) =>
     let '(a1, ok) := create_session a c ident sid in
     match k with
@@ -296,6 +336,7 @@ Definition keys_result (a : acct) (k : cont) (res : list (N * (N * N))) : acct *
         | None => (a1, [])
         end
       else (a1, [])
+    | KNotify _ => (a1, [])        (* resultClbk = lambda _, __: None - nothing is sent, errors are dropped *)
     end
   end.
 
@@ -316,8 +357,14 @@ Definition on_receipt (a : acct) (c m : N) (retry : bool) : acct * list output :
     if retry then get_keys a1 c (KRetry c m to) else (a1, [OTopReceipt c m retry])
   end.
 
+(* the process ends (connection closed, nothing committed any more: an open transaction is rolled back) and a new
+   process opens the store: it sees the committed tables *)
 Definition restart (a : acct) : acct :=
-  mkA (a_auto a) (a_ids a) (a_sess a) [] [] [] [] [] (a_iqctr a).
+  mkA (a_auto a) (a_dids a) (a_dsess a) (a_dids a) (a_dsess a) [] [] [] [] [] (a_iqctr a).
+
+(* AxolotlControlLayer.onIdentityChangeEncryptNotification: ack, then getKeysFor([jid], no-op callback) *)
+Definition on_notify (a : acct) (c m : N) : acct * list output :=
+  let '(a1, o) := get_keys a c (KNotify c) in (a1, ONotifAck c m :: o).
 
 Definition step (a : acct) (i : input) : acct * list output :=
   match i with
@@ -330,7 +377,8 @@ Definition step (a : acct) (i : input) : acct * list output :=
   | IMsg c m e => handle_enc a c m e
   | IReceipt c m retry => on_receipt a c m retry
   | IRestart => (restart a, [])
-  | IWipe => (mkA (a_auto a) [] [] [] [] [] [] [] (a_iqctr a), [])
+  | IWipe => (mkA (a_auto a) [] [] [] [] [] [] [] [] [] (a_iqctr a), [])
+  | INotify c m => on_notify a c m
   end.
 
 (* a run: state and outputs after each input *)
